@@ -25,7 +25,7 @@ import re
 
 from ..core import Choices, short_hash
 from ..env import (CAUGHT_NAMES, NONEXC_NAMES, UNCAUGHT_NAMES, ZOO_CLASSES,
-                   Probe, _args)
+                   Probe, _args, exc_state)
 from ..gen import Gen, serialise
 from .c13 import tal_evidence
 from .talbase import TalCheck
@@ -145,6 +145,15 @@ class C12(TalCheck):
         if _args(e) != _args(orig):
             vs.append(self._v("args-changed", k, cname,
                               f"args {_args(e)} != original {_args(orig)}"))
+        # ... and what the object carries besides args (errno, filename,
+        # value, slots, instance attributes)
+        so, se = exc_state(orig), exc_state(e)
+        lost = {n: (so[n], se.get(n, "<missing>")) for n in so
+                if se.get(n, "<missing>") != so[n]}
+        if lost and not vs:
+            vs.append(self._v("state-lost", k, cname,
+                              "attributes of the original exception that "
+                              f"the raised one lacks or changes: {lost}"))
         if cls is SystemExit and getattr(e, "code", None) != orig.code:
             vs.append(self._v("exit-code-lost", k, cname,
                               f"SystemExit.code {getattr(e, 'code', None)!r} "
@@ -246,7 +255,10 @@ class C12(TalCheck):
         out = []
         for name, eno in (("EMFILE", errno.EMFILE), ("EACCES", errno.EACCES),
                           ("EIO", errno.EIO), ("EISDIR", errno.EISDIR),
-                          ("ENOENT", errno.ENOENT)):
+                          ("ENOENT", errno.ENOENT),
+                          # the process runs with LC_ALL=C: the (UTF-8)
+                          # file is not decodable in the locale's encoding
+                          ("locale=C", "ascii")):
             hit = []
 
             def hook(path, mode, eno=eno, hit=hit):
@@ -302,7 +314,7 @@ class C12(TalCheck):
             "single-file templates from the seeded tree generator, 85% of "
             "them laid out over several lines with indentation and "
             "non-ASCII text before expressions; per template every probe "
-            "site reached in the fault-free run x each of 28 exception "
+            "site reached in the fault-free run x each of 29 exception "
             "classes (first invocation; last invocation for repeated "
             "sites) as single-fault plans - enumerated, not sampled - plus "
             "up to 20 two-fault plans with an earlier recovered failure. "
